@@ -34,6 +34,9 @@ func (it *interp) value(v ssa.Value) (any, error) {
 			if !ok {
 				return nil, fmt.Errorf("no value for %s", l.Name)
 			}
+			if len(l.Name) > 2 && l.Name[:2] == "b:" {
+				return x != 0, nil // boolean leaf
+			}
 			return x, nil
 		}
 	}
